@@ -83,3 +83,163 @@ def c_magnitude(ex, st, fr, callee, args):
         hi = 10 ** (m + 1)
         alts.append((z3.And(ax >= lo, ax < hi), IV(m, "u8")))
     return _Alts(alts)
+
+
+# ---------------------------------------------------------------------------
+# rounding kernels (obligations: C05 kernel cases, C16/K4)
+# ---------------------------------------------------------------------------
+
+def _mode_of(ex, st, marg, default_mode):
+    if isinstance(marg, EnumV) and marg.ty == "Option":
+        if marg.variant == 1:
+            return marg.fields[0].variant
+        return default_mode
+    return default_mode
+
+
+def make_rounding_contracts(default_mode):
+    """contracts for i128_div_rounded / i128_shifted_div_rounded / i128_mul_div_ten_pow_rounded under the
+    thread's current mode `default_mode`"""
+
+    def c_div_rounded(ex, st, fr, callee, args):
+        N, D, marg = args
+        mode = _mode_of(ex, st, marg, default_mode)
+        if mode is None:
+            return NotImplemented
+        if is_conc(N.t) and is_conc(D.t):
+            return NotImplemented
+        dom = T.band(T.le(-MAXC, N.t), T.le(-MAXC, D.t), T.bnot(T.eq(D.t, 0)))
+        if not ex.proves(st, dom, 2000):
+            return NotImplemented        # outside the contract's domain: execute the real body
+        BI._use("CONTRACT i128_div_rounded = declarative rounding of N/D (obligation: C05 kernel cases, all modes)")
+        c = T.fresh_int("dr")
+        kd = st.known(T.lt(D.t, 0))
+        if is_conc(D.t):
+            kd = D.t < 0
+        if kd is True:
+            Nn, Dn = T.neg(N.t), T.neg(D.t)
+        elif kd is False:
+            Nn, Dn = N.t, D.t
+        else:
+            Nn, Dn = z3.If(D.t < 0, -T.I(N.t), T.I(N.t)), z3.If(D.t < 0, -T.I(D.t), T.I(D.t))
+        st.define((c,), (rnd_rel(mode, Nn, Dn, c),))
+        return IV(c, "i128")
+
+    def _opt_alts(ex, st, rr):
+        some = EnumV("Option", 1, (IV(rr, "i128"),))
+        none = EnumV("Option", 0)
+        return _Alts([(z3.And(rr > I128_MIN, rr <= I128_MAX), some),
+                      (z3.Or(rr > I128_MAX, rr < I128_MIN), none),
+                      (rr == I128_MIN, some), (rr == I128_MIN, none)])
+
+    def c_shifted_div_rounded(ex, st, fr, callee, args):
+        x, k, d, marg = args
+        mode = _mode_of(ex, st, marg, default_mode)
+        if mode is None or not is_conc(k.t):
+            return NotImplemented
+        dom = T.band(T.le(-MAXC, x.t), T.le(-MAXC, d.t), T.bnot(T.eq(d.t, 0)))
+        if not ex.proves(st, dom, 2000):
+            return NotImplemented
+        BI._use("CONTRACT i128_shifted_div_rounded = rounding of x*10^k/d, None iff not representable (obligation C16/K4)")
+        rr = T.fresh_int("sdr")
+        kd = st.known(T.lt(d.t, 0))
+        if kd is True:
+            Nn, Dn = T.neg(x.t) * 10 ** k.t, T.neg(d.t)
+        elif kd is False:
+            Nn, Dn = T.I(x.t) * 10 ** k.t, d.t
+        else:
+            Nn, Dn = z3.If(d.t < 0, -T.I(x.t), T.I(x.t)) * 10 ** k.t, z3.If(d.t < 0, -T.I(d.t), T.I(d.t))
+        st.define((rr,), (rnd_rel(mode, Nn, Dn, rr),))
+        return _opt_alts(ex, st, rr)
+
+    def c_mul_div_ten_pow_rounded(ex, st, fr, callee, args):
+        x, y, p, marg = args
+        mode = _mode_of(ex, st, marg, default_mode)
+        if mode is None or not is_conc(p.t):
+            return NotImplemented
+        dom = T.band(T.le(-MAXC, x.t), T.le(-MAXC, y.t))
+        if not ex.proves(st, dom, 2000):
+            return NotImplemented
+        BI._use("CONTRACT i128_mul_div_ten_pow_rounded = rounding of x*y/10^p, None iff not representable (obligation C16/K4)")
+        rr = T.fresh_int("mdr")
+        st.define((rr,), (rnd_rel(mode, T.I(x.t) * T.I(y.t), 10 ** p.t, rr),))
+        return _opt_alts(ex, st, rr)
+
+    return {"i128_div_rounded": c_div_rounded, "i128_shifted_div_rounded": c_shifted_div_rounded,
+            "i128_mul_div_ten_pow_rounded": c_mul_div_ten_pow_rounded}
+
+
+def nd_ite(x, p, y, q, n):
+    """numerator / positive denominator of (x/10^p)/(y/10^q)*10^n with the divisor's sign normalised by ite"""
+    k = q + n - p
+    x, y = T.I(x), T.I(y)
+    if k >= 0:
+        N, D = x * 10 ** k, y
+    else:
+        N, D = x, y * 10 ** (-k)
+    return z3.If(y < 0, -N, N), z3.If(y < 0, -D, D)
+
+
+def make_cdr_contract(default_mode):
+    """checked_div_rounded(dc, dp, vc, vq, n): obligation = C04 'cdr' cases (all (dp, n+vq) classes, modes, signs)"""
+
+    def c_cdr(ex, st, fr, callee, args):
+        dc, dp, vc, vq, n = args
+        if not (is_conc(dp.t) and is_conc(vq.t) and is_conc(n.t)):
+            return NotImplemented
+        if n.t + vq.t > 255:
+            return NotImplemented
+        dom = T.band(T.le(-MAXC, dc.t), T.le(-MAXC, vc.t), T.bnot(T.eq(vc.t, 0)))
+        if not ex.proves(st, dom, 2000):
+            return NotImplemented
+        if n.t + vq.t > 36 + dp.t or n.t > 38:
+            return NotImplemented
+        BI._use("CONTRACT checked_div_rounded = rounding of the exact quotient at scale n, None iff not representable (obligation: C04 cdr cases)")
+        rr = T.fresh_int("cdr")
+        N, D = nd_ite(dc.t, dp.t, vc.t, vq.t, n.t)
+        st.define((rr,), (rnd_rel(default_mode, N, D, rr),))
+        some = EnumV("Option", 1, (IV(rr, "i128"),))
+        none = EnumV("Option", 0)
+        return _Alts([(z3.And(rr > I128_MIN, rr <= I128_MAX), some),
+                      (z3.Or(rr > I128_MAX, rr < I128_MIN), none),
+                      (rr == I128_MIN, some), (rr == I128_MIN, none)])
+    return c_cdr
+
+
+def c_normalize(ex, st, fr, callee, args):
+    """normalize(&mut coeff, &mut n): strips trailing decimal zeros (obligation: C03 'normalize' cases)"""
+    rc, rn = args
+    c = ex.read_ref(st, rc)
+    n = ex.read_ref(st, rn)
+    if not is_conc(n.t):
+        return NotImplemented
+    if is_conc(c.t):
+        return NotImplemented
+    BI._use("CONTRACT normalize: (c', n') with c = c'*10^(n-n'), n' = 0 or c' mod 10 != 0, (0,0) for 0 (obligation: C03 normalize cases)")
+    n0 = int(n.t)
+    alts = []
+
+    def mk(j, cj):
+        def fix(s2):
+            ex.write_ref(s2, rc, IV(cj, "i128"))
+            ex.write_ref(s2, rn, IV(n0 - j, "u8"))
+        return fix
+    from mir2smt.exec import Fork
+    if st.tags.pop(("normalize_done", fr.uid, fr.bb), None):
+        return UNIT
+    forks = []
+    zero = T.eq(c.t, 0)
+    forks.append((zero, lambda s2: (ex.write_ref(s2, rc, IV(0, "i128")), ex.write_ref(s2, rn, IV(0, "u8")),
+                                    s2.tags.__setitem__(("normalize_done", fr.uid, fr.bb), True))))
+    for j in range(0, n0 + 1):
+        cj = T.fresh_int("nz%d" % j)
+        cond = z3.And(c.t != 0, c.t == cj * 10 ** j)
+        if j < n0:
+            cond = z3.And(cond, cj % 10 != 0)
+
+        def fix(s2, j=j, cj=cj):
+            ex.write_ref(s2, rc, IV(cj, "i128"))
+            ex.write_ref(s2, rn, IV(n0 - j, "u8"))
+            s2.tags[("normalize_done", fr.uid, fr.bb)] = True
+        forks.append((cond, fix))
+    raise Fork(forks, check=False)
